@@ -56,6 +56,16 @@ func (x *Ext) Summarize(fn *ssa.Function, args []*Term, free []*Term) *Summary {
 }
 
 func (in *Inst) emit(e *Event) *Event {
+	// selections already decided by the event's own path condition are resolved in what it uses
+	if S := in.X.S; e.Guard != nil && e.Guard != S.True && e.Kind != "load" && e.Kind != "alloc" {
+		e.Val = S.RestrictDeep(e.Val, e.Guard)
+		for i := range e.Args {
+			e.Args[i] = S.RestrictDeep(e.Args[i], e.Guard)
+		}
+		for i := range e.Rets {
+			e.Rets[i] = S.RestrictDeep(e.Rets[i], e.Guard)
+		}
+	}
 	in.X.nseq++
 	e.Seq = in.X.nseq
 	e.Fn = in.Fn
@@ -227,7 +237,7 @@ func (in *Inst) walkRegion(L *loopInfo, LS *LoopS, entryPC *Term) []termExit {
 			if !isHeader {
 				in.joinPhis(b, rs)
 			}
-			evBefore := in.X.nseq
+			evBefore := len(in.region[len(in.region)-1].Items)
 			for _, instr := range b.Instrs {
 				switch t := instr.(type) {
 				case *ssa.Phi:
@@ -251,10 +261,23 @@ func (in *Inst) walkRegion(L *loopInfo, LS *LoopS, entryPC *Term) []termExit {
 					rs.tex = append(rs.tex, termExit{Guard: g, Ev: ev})
 				default:
 					in.instr(instr, g, b)
+					if in.narrow != nil {
+						// an inlined callee that may panic: what follows runs only if it returned
+						g = in.narrow
+						in.narrow = nil
+					}
 				}
 			}
 			if isHeader && LS != nil {
-				LS.HeadEvents = in.X.nseq - evBefore
+				// live items only: the return of an inlined helper is bookkeeping, not an event of the iteration
+				n := 0
+				for _, it := range in.region[len(in.region)-1].Items[evBefore:] {
+					if e, ok := it.(*Event); ok && e.Dead {
+						continue
+					}
+					n++
+				}
+				LS.HeadEvents = n
 			}
 		} else {
 			// child loop
@@ -409,6 +432,7 @@ func (in *Inst) doLoop(l *loopInfo, parent *LoopS, entryG *Term) (*LoopS, []term
 	ls.Iter.Loop = ls
 	ls.IterEnd = in.newSym(SIterEnd, fmt.Sprintf("iend%d", ls.ID), TInt)
 	ls.IterEnd.Loop = ls.Parent
+	ls.IterEnd.Obj = ls
 
 	for _, phi := range phis {
 		// initial value: mux over entries from outside the loop (normally exactly one)
